@@ -69,6 +69,17 @@ def cases(tier, seed):
         for n in (2, 3, 4):
             for pat in ("rev_identity", "first_col_zero", "leading_zero_rows", "trailing_zero_rows", "single_entry"):
                 out.append({"key": f"solve/{solver}/n={n}/rhs={pat}", "grp": "solve", "solver": solver, "n": n, "nrhs": n, "sc": "1", "single": None, "rhs": pat})
+    # joint zero patterns: every zero pattern of the strict triangle of T x every zero-row pattern of B (exact small-integer data, so
+    # exactly-zero interior rows of the solution occur), n = 2, 3 complete, n = 4 every other pattern
+    for solver in ("Utriangle", "upper", "lower"):
+        for n in (2, 3, 4):
+            npairs = n * (n - 1) // 2
+            for tmask in range(1 << npairs):
+                if n == 4 and tmask % 3:
+                    continue
+                for bmask in range(1, 1 << n):
+                    out.append({"key": f"solve/{solver}/n={n}/joint/t={tmask:0{npairs}b}/b={bmask:0{n}b}", "grp": "solve", "solver": solver, "n": n, "nrhs": 2, "sc": "1", "single": None,
+                                "joint": [tmask, bmask]})
     # special diagonals: moduli exactly one (signed units, Hurwitz units, -1), all ones, one/unit mixtures, equal moduli with different phases
     for solver in ("Utriangle", "upper", "lower"):
         for n in range(1, 5):
@@ -237,6 +248,23 @@ def run_case(case, seed):
         else:
             T[i, :i] = 0.0
         T[i, i] = G.SIGNED_UNITS[(i * 3 + n) % 8].astype(float) * 2.0 + np.array([0, 0.5, 0, 0.25])  # modulus ~2: well conditioned
+    if case.get("joint"):
+        tmask, bmask = case["joint"]
+        T = fill.quat_int(n, n, -2, 2).astype(float)
+        pairs = [(i, j) for i in range(n) for j in range(i + 1, n)]
+        for i in range(n):
+            for j in range(n):
+                if (solver == "lower" and j > i) or (solver != "lower" and j < i):
+                    T[i, j] = 0.0
+            T[i, i] = G.SIGNED_UNITS[(3 * i + 1) % 8].astype(float) * (2.0 if i % 2 else 1.0) + (np.array([1.0, 1.0, 1.0, 1.0]) if i == 1 else 0.0)
+        for b_, (i, j) in enumerate(pairs):
+            if not (tmask >> b_) & 1:
+                if solver == "lower":
+                    T[j, i] = 0.0
+                else:
+                    T[i, j] = 0.0
+            elif not (T[j, i] if solver == "lower" else T[i, j]).any():
+                (T[j, i] if solver == "lower" else T[i, j])[2] = 1.0
     dk = case.get("diag")
     if dk:
         hur = [np.array(v, float) / 2 for v in itertools.product((1, -1), repeat=4)]
@@ -269,6 +297,15 @@ def run_case(case, seed):
     elif pat == "single_entry":
         B = np.zeros((n, nrhs, 4))
         B[n // 2, nrhs - 1, 3] = 1.0
+    if case.get("joint"):
+        # B = T X0 with X0 having exactly-zero rows where bmask has a 0 bit (exact integer arithmetic): the solution has those zero rows
+        X0 = fill.quat_int(n, nrhs, -2, 2).astype(float)
+        for i in range(n):
+            if not (case["joint"][1] >> i) & 1:
+                X0[i] = 0.0
+            elif not X0[i].any():
+                X0[i, 0, 1] = 1.0
+        B = O.qmatmul(T, X0)
     s = SC[case["sc"]]
     if case["single"] is None:
         T = T * s
